@@ -356,7 +356,7 @@ class Mods:
             raise AttributeError(name)
 
 
-def load(*, fake_skia=True, lex_placeholders=True, modules=MODULE_ORDER, extra_ast=None, merge_tuple_cmp=True, extra_builtins=None):
+def load(*, fake_skia=True, lex_placeholders=True, modules=MODULE_ORDER, extra_ast=None, merge_tuple_cmp=True, extra_builtins=None, extra_imports=None):
     n = next(_load_counter)
     prefix = f"sxload{n}"
     mods = Mods(prefix)
@@ -381,6 +381,8 @@ def load(*, fake_skia=True, lex_placeholders=True, modules=MODULE_ORDER, extra_a
                 return symmath
             if name == "pathops":
                 return pathops_mod
+            if extra_imports and name in extra_imports:
+                return extra_imports[name]
             if name == "picosvg":
                 for sub in fromlist or ():
                     if sub not in mods._mods and os.path.exists(
@@ -411,6 +413,8 @@ def load(*, fake_skia=True, lex_placeholders=True, modules=MODULE_ORDER, extra_a
             "__import__": sx_import,
         }
     )
+    if extra_imports:
+        mods.stubs.append("imports replaced: " + ", ".join(sorted(extra_imports)))
     if extra_builtins:
         bdict.update(extra_builtins)
         mods.stubs.append("builtins also replaced: " + ", ".join(sorted(extra_builtins)))
